@@ -5,7 +5,8 @@ MC : JlsTs.tla (UTC configuration: strictly increasing ids, seek to level 1, D =
      TmapMC.tla: for all maps of <= 6 anchors and all queries, interp_i64's binary search
      (transcribed) picks the segment the contract prescribes and reads only inside the table.
 TV : programs with 0, 1, 2, udf+-1, udf^2+-1, 999, 1000, 1001, 2500 entries, decimation
-     10/15/100/default, offset ids, rates 2^20..2^30 and 10^9 Hz, irregular spacing and
+     10/15/100/default, offset ids, rates 2^20..2^30 and 10^9 Hz (single entry: also 1 kHz,
+     48 kHz, 1 MHz), irregular spacing and
      drift; jls_rd_utc from ids before/at/between/after with stopped iteration;
      jls_rd_sample_id_to_timestamp / jls_rd_timestamp_to_sample_id inside, at anchors, before,
      after, and round trips; judged by JlsApiTrace.tla with Tmap.tla (integer arithmetic)."""
@@ -36,7 +37,7 @@ def run(tier):
     x = 1
     rates = [1073741824, 268435456, 16777216, 1048576, 1000000000]
     counts = [0, 1, 2, 3, 9, 10, 11, 99, 100, 101, 999, 1000, 1001, 2500]
-    reps = 4 if thorough else 1
+    reps = 60 if thorough else 1
     for rep in range(reps):
         for c in counts:
             for udf in ([10, 15, 100, 0] if (thorough or c < 200) else [10]):
@@ -48,6 +49,13 @@ def run(tier):
     for c in (3, 12, 150):
         P.append(progs.utc_program(rng, x, c, 10, 16777216, equal_times=True))
         x += 1
+    # a single entry extrapolates from the nominal sample rate in both directions: every rate (the decimal ones
+    # included), the entry at / after / before the first sample, queries on both sides of it
+    for rate in [1000, 48000, 1000000] + rates:
+        for anchor_off in (0, 300, -40):
+            P.append(progs.utc_program(rng, x, 1, 10, rate, base=rng.choice([0, 5000, -70000]), tbase=rng.choice([0, 1700000000 * (1 << 30)]),
+                                       first_off=rng.choice([0, 64]), anchor_off=anchor_off))
+            x += 1
     trace, v, other = apicheck.run_api(ck, P, "c12", {"C12"})
     nconv = sum(1 for l in open(trace) if l.startswith('{"e":"I2T"') or l.startswith('{"e":"T2I"'))
     ck.cov["distinct_nontrivial"] = nconv
